@@ -4,14 +4,17 @@
 // printed as Coq cases for Model_ConsensusNode (Run_C02.v).
 //
 // Direct oracles (model independent):
-//  (i)   no two different signed votes with equal (height, round, type) and no
-//        two different proposals with equal (height, round) over the whole
-//        history including all restarts;
-//  (ii)  every vote/proposal broadcast was in the synced prefix of the round
-//        WAL when it was handed to the network;
-//  (iii) no panic, and every restart succeeds;
-//  (C01) Finalize(id) only with +2/3 precommits for id in one round among the
-//        votes delivered to / emitted by the engine.
+//
+//	(i)   no two different signed votes with equal (height, round, type) and no
+//	      two different proposals with equal (height, round) over the whole
+//	      history including all restarts;
+//	(ii)  every vote/proposal broadcast was in the synced prefix of the round
+//	      WAL when it was handed to the network;
+//	(iii) no panic, and every restart succeeds;
+//	(C01) Finalize(id) only with +2/3 precommits for id in one round among the
+//	      votes delivered to / emitted by the engine; after a sent precommit
+//	      for B in round r, a later prevote for something else needs a polka
+//	      for something else above r (lock discipline).
 package main
 
 import (
@@ -394,8 +397,8 @@ func main() {
 		return
 	}
 	hxlib.Main(hxlib.Spec{
-		ID: "C02",
-		Rule: "adaptive event histories against one real engine (n=4 mostly, also 1 and 7; own index random): proposals (right/wrong proposer, POL rounds, undecodable and unimportable blocks), block parts in any order, prevote/precommit batches for the block / nil / other ids from subsets of the simulated validators (sizes around the +2/3 boundary), vote lists, duplicates, echoes of own messages, re-votes, other heights, non-validators, real step timers, released/failed block-manager callbacks, and crashes cut at any output of an event (preferably inside write->sync->broadcast of an own message) with WAL images keeping 0..all unsynced bytes incl. exactly one frame header, followed by restart and double crashes; non-trivial = the engine broadcast at least one own vote/proposal and the history has >= 6 events; distinct = distinct (seed, index)",
-		Gen:   gen, Replay: replay, Shard: 8,
+		ID:   "C02",
+		Rule: "the fixed histories of corpus/C02 first, then adaptive event histories against one real engine (n=4 mostly, also 1 and 7; own index random): proposals (right/wrong proposer, POL rounds, undecodable and unimportable blocks), block parts in any order, prevote/precommit batches for the block / nil / other ids from subsets of the simulated validators (sizes around the +2/3 boundary), vote lists, duplicates, echoes of own messages, re-votes, other heights, non-validators, real step timers, released/failed block-manager callbacks, and crashes cut at any output of an event (preferably inside write->sync->broadcast of an own message) with WAL images keeping 0..all unsynced bytes incl. exactly one frame header, followed by restart and double crashes; non-trivial = the engine broadcast at least one own vote/proposal and the history has >= 6 events; distinct = distinct (seed, index)",
+		Gen:  gen, Replay: replay, Shard: 8,
 	})
 }
